@@ -12,6 +12,8 @@ import Verif.Model.Common
     `authority/provisioners.go` `StoreProvisioner / UpdateProvisioner / RemoveProvisioner`,
     `authority/authority.go` `ReloadAdminResources`            → `Auth.*`
   * `authority/policy.go` `checkPolicy` (lock-out test)         → `checkPolicy`
+  * `authority/authorize.go` `AuthorizeAdminToken` / `UseToken` (reached through
+    `authority/admin/api/middleware.go` `extractAuthorizeTokenAdmin`) → `authorizeAdmin`
 
   Conventions
   * a `sync.Map` / Go map is an association list (`Map`): `get` = Load, `put` = Store (replace),
@@ -573,5 +575,92 @@ def checkPolicy (verdict : Str → SanVerdict) : List Str → PolOut
     | .allowed => checkPolicy verdict r
     | .notAllowed => .lockOut
     | .evalError => .evalFailure
+
+/-! ## admin token check (`Authority.AuthorizeAdminToken`, authority/authorize.go) -/
+
+/-- one audience of the token: the claim as written and `stripPort` of it (url parsing is an input) -/
+structure Aud where
+  raw : Str
+  stripped : Str
+  deriving DecidableEq, Repr
+
+/-- An admin-API request as `AuthorizeAdminToken` sees it. Everything computed outside the
+    repository (JOSE parsing, X.509 path building, signature verification, the clock) is an input
+    bit computed by the harness with the same library calls. -/
+structure AdminReq where
+  parseOk : Bool              -- jose.ParseSigned
+  chainOk : Bool              -- x5c chain verifies to the CA roots with ExtKeyUsageClientAuth
+  digSig : Bool               -- leaf.KeyUsage & digitalSignature ≠ 0
+  sigOk : Bool                -- jwt.Claims(leaf.PublicKey, …): signed by the leaf's key
+  prov : Option Str           -- LoadProvisionerByCertificate(leaf): name of the issuing provisioner
+  reuseKey : Option Str       -- prov.GetTokenID (or the token hash); none = no id obtainable
+  now : Int                   -- seconds
+  nbf : Option Int
+  exp : Option Int
+  iat : Option Int
+  aud : List Aud
+  dnsNames : List Str         -- config.DNSNames as host names
+  path : Str                  -- r.URL.Path
+  method : Str                -- r.Method
+  iss : Str
+  sub : Str
+  sans : List Str             -- leaf CN, DNS names, e-mail addresses (in that order)
+  deriving DecidableEq, Repr
+
+inductive AdminAuthz
+  | ok (adm : Adm)
+  | unauthorized              -- 401
+  | provNotFound              -- the error of LoadProvisionerByCertificate is returned as is (404)
+  deriving DecidableEq, Repr
+
+def httpsPrefix : Str := s "https://"
+def adminsPrefix : Str := s "/admin/admins"
+def GET : Str := s "GET"
+def adminClientIssuer : Str := s "step-admin-client/1.0"
+
+/-- `config.Audience(path)` -/
+def audiencesFor (dnsNames : List Str) (path : Str) : List Str :=
+  dnsNames.map (fun d => httpsPrefix ++ d ++ path) ++ [path]
+
+/-- `matchesAudience(claims.Audience, expected)`: some pair equal, literally or after stripPort
+    (the expected audiences carry no port, so `stripPort` is the identity on them) -/
+def matchesAud (as : List Aud) (bs : List Str) : Bool :=
+  bs.any (fun b => as.any (fun a => a.raw = b || a.stripped = b))
+
+/-- `claims.ValidateWithLeeway(Expected{Time: now}, time.Minute)` -/
+def timeOk (r : AdminReq) : Bool :=
+  (match r.nbf with | some n => decide (¬ r.now + 60 < n) | none => true) &&
+  (match r.exp with | some e => decide (¬ r.now - 60 > e) | none => true) &&
+  (match r.iat with | some i => decide (¬ r.now + 60 < i) | none => true)
+
+/-- first SAN registered as admin of that provisioner (`LoadAdminBySubProv(san, prov.GetName())`) -/
+def findAdmin (A : AColl) (pn : Str) : List Str → Option Adm
+  | [] => none
+  | san :: r => match A.bySubProv.get (san, pn) with
+    | some a => some a
+    | none => findAdmin A pn r
+
+/-- `AuthorizeAdminToken`, step by step; `used` = reuse keys recorded so far (`UseToken`). -/
+def authorizeAdmin (A : AColl) (used : List Str) (r : AdminReq) : List Str × AdminAuthz :=
+  if !r.parseOk then (used, .unauthorized) else
+  if !r.chainOk then (used, .unauthorized) else
+  if !r.digSig then (used, .unauthorized) else
+  if !r.sigOk then (used, .unauthorized) else
+  match r.prov with
+  | none => (used, .provNotFound)
+  | some pn =>
+    if (match r.reuseKey with | some k => used.contains k | none => false) then (used, .unauthorized) else
+    let used' := match r.reuseKey with
+      | some k => k :: used
+      | none => used
+    if !timeOk r then (used', .unauthorized) else
+    if !matchesAud r.aud (audiencesFor r.dnsNames r.path) then (used', .unauthorized) else
+    if r.iss ≠ adminClientIssuer ∧ r.iss ≠ pn then (used', .unauthorized) else
+    if r.sub = [] then (used', .unauthorized) else
+    match findAdmin A pn r.sans with
+    | none => (used', .unauthorized)
+    | some adm =>
+      if adminsPrefix.isPrefixOf r.path ∧ r.method ≠ GET ∧ adm.super = false then (used', .unauthorized)
+      else (used', .ok adm)
 
 end Verif.Admin
